@@ -131,6 +131,11 @@ def run(rep, tier):
     rep.rule('R4', 'the image is loaded into the DUT memory before the clock starts', floor=1)
     rep.add('R4', 'main:load-before-run', order[:2] == ['load', 'run'], pos(m.node) + ' main (hextb.cpp)', 'call order %s' % order, nontrivial=False)
     rule_shim_defined(rep, idx)
+    from .. import report as _report
+    from . import c06
+    rep.rule('R6', '"the loaded image is intact": the testbench loader copies the whole zero-padded image to word 0 of the DUT memory, so no '
+             'word of the image keeps its randomised power-on contents (import of C06-R3)', floor=2)
+    c06.run(_report.Import(rep, 'R6', 'C06', only_rules={'R3'}), tier)
 
 
 def rule_shim_defined(rep, idx):
